@@ -128,3 +128,22 @@ package provider
 //@ ensures [data-first] imp(result_of(r.Read, 0) > 0, n == result_of(r.Read, 0) && err == nil)
 //@ ensures [error-without-data-is-remembered] imp(result_of(r.Read, 0) <= 0 && result_of(r.Read, 1) != nil, readError == result_of(r.Read, 1) && err == result_of(r.Read, 1))
 //@ at call r.Read assert arg(p) == p0
+
+// ---------------------------------------------------------------- small pieces used by custom providers
+//@ func NewNumBuffered
+//@ props C08
+//@ requires limit >= 0
+//@ ensures typeis(result, *num) && result.(*num).limit == limit && result.(*num).i == 0 && cap(result.(*num).sink) == limit && !closed(result.(*num).sink)
+
+//@ func NewScanDecoder
+//@ props C07 C13
+//@ ensures fresh(result) && result.scanner == scanner && result.decoder == decoder && result.chunkCounter == 0
+
+// One ammo per call: chunks that decode to nothing are skipped; the end of the scan is the scanner's own verdict (nil at a
+// clean end of input: ScanAmmoDecoder has no "no more ammo" error of its own); a chunk that fails to decode is an error.
+//@ func (d *ScanAmmoDecoder) Decode
+//@ props C07 C13
+//@ requires d.scanner != nil && d.decoder != nil
+//@ loop 0 invariant [only-empty-chunks-so-far] imp(calls(d.decoder.DecodeChunk) > 0, result_of(d.decoder.DecodeChunk, 0) == ErrNoAmmoDecoded)
+//@ at call d.decoder.DecodeChunk assert [the-chunk-just-scanned-into-the-caller-s-ammo] arg(a0) == result_of(d.scanner.Bytes, 0) && arg(a1) == ammo0
+//@ ensures [a-chunk-that-fails-is-an-error] imp(calls(d.decoder.DecodeChunk) > 0 && result_of(d.decoder.DecodeChunk, 0) != nil && result_of(d.decoder.DecodeChunk, 0) != ErrNoAmmoDecoded, result != nil)
